@@ -132,6 +132,36 @@ fn entries_field(rng: &mut Rng, n: usize) -> String {
     parts.join(",")
 }
 
+/// a table with many entries: short distinct names, 20-byte digests (now and then shorter / 24
+/// bytes), so that the case line stays moderate (~60 characters per entry)
+fn big_entries_field(rng: &mut Rng, n: usize) -> String {
+    let mut parts = Vec::with_capacity(n);
+    for i in 0..n {
+        let mut name = format!("{}", i).into_bytes();
+        if rng.chance(1, 8) {
+            name.extend_from_slice(&text(rng, 6, b"\0", false));
+        }
+        let dl = match rng.below(16) {
+            0 => 24,
+            1 => rng.range(0, 19) as usize,
+            _ => 20,
+        };
+        parts.push(format!("{}:{}:{}", i32_edge(rng), hex(&name), hex(&rng.bytes(dl))));
+    }
+    parts.join(",")
+}
+
+/// entry counts whose table size `96 n` lies on either side of 2^15 / 2^16 (the header stores the
+/// size as an i32; 341 * 96 = 32736, 342 * 96 = 32832, 682 * 96 = 65472, 683 * 96 = 65568), and
+/// one well beyond (size mod 2^16 and size >> 16 both non-trivial)
+fn big_table_counts(rng: &mut Rng, thorough: bool) -> Vec<usize> {
+    let mut v = vec![341usize, 342, 682, 683, 684, rng.range(1366, 1700) as usize];
+    if thorough {
+        v.extend_from_slice(&[1365, 1366, 2730, 2731, rng.range(2732, 3500) as usize]); // 2^17, 2^18
+    }
+    v
+}
+
 fn i64_any(rng: &mut Rng) -> i64 {
     match rng.below(8) {
         0 => 0,
@@ -292,6 +322,12 @@ pub fn generate(thorough: bool, seed: u64, out: &mut dyn Write) {
         } as usize;
         let op = ["write", "parse", "rt"][i % 3];
         writeln!(out, "{} {}", op, entries_field(&mut rng, ne)).unwrap();
+    }
+    // large tables: entry area at and beyond 2^15 / 2^16 bytes
+    for n in big_table_counts(&mut rng, thorough) {
+        for op in ["write", "parse", "rt"] {
+            writeln!(out, "{} {}", op, big_entries_field(&mut rng, n)).unwrap();
+        }
     }
     // patch lists
     let n = if thorough { 90_000 } else { 2400 };
